@@ -72,9 +72,11 @@ theorem C07_consuming_peek_neg (n arrival : Nat) (h : arrival < n) :
   simp [h, h']
 
 /-- the source still only peeks: `_wrap_handler` calls `is_release_requested(consume=False)` and the
-reactor's release branch calls the consuming form (regenerated from the source on every run) -/
+reactor's release branch calls the consuming form — and it is the only function in the package
+that does: whoever else takes the indication off the queue (a timeout path, say) leaves the request
+unanswered (regenerated from the source on every run) -/
 theorem C07_code_peeks : Gen.Release.wrapHandlerConsumes = false ∧ Gen.Release.reactorConsumes = true ∧
-    Gen.Release.defaultConsume = true := by decide
+    Gen.Release.defaultConsume = true ∧ Gen.Release.otherConsumers = [] := by decide
 
 example : serve 5 2 false = ⟨2, true, true, true⟩ ∧ serve 5 9 false = ⟨5, true, true, true⟩ ∧
     serve 5 2 true = ⟨2, true, false, false⟩ := by decide
